@@ -38,6 +38,42 @@ FAULT_TEXT = {
 LENGTH_ATTR = {"rect": "width", "circle": "r", "ellipse": "rx", "line": "x2", "svg": "width", "use": "x", "image": "width"}
 
 
+def faults_of(tag):
+    """DocFault!FaultsOf"""
+    f = ["tf_unclosed", "tf_unknown", "tf_few_numbers", "tf_bad_unit", "colour_bad", "style_garbage"]
+    if tag in ("rect", "circle", "ellipse", "line"):
+        f += ["length_garbage", "length_negative"]
+    if tag == "path":
+        f += ["d_truncated", "d_arc_short", "d_no_move", "d_garbage"]
+    if tag in ("polyline", "polygon"):
+        f += ["points_odd", "points_garbage"]
+    if tag == "svg":
+        f += ["viewbox_garbage", "viewbox_short", "viewbox_zero", "par_garbage", "length_garbage"]
+    if tag == "use":
+        f += ["href_missing", "href_self", "length_garbage"]
+    return f
+
+
+def generated_cases(rng, n):
+    """documents of docgen with unique ids on every element and 1..3 faults at random places"""
+    from . import docgen
+    out = []
+    while len(out) < n:
+        g = docgen.gen_doc(rng, rng.randint(2, 10))
+        doc = g["doc"]
+        k = 0
+        for t in doc:
+            if t[0] != "end" and not t[1]:
+                k += 1
+                t[1] = "x%d" % k
+        doc[0][1] = "root"
+        doc[0][2] = 0
+        idx = [i + 1 for i, t in enumerate(doc) if t[0] != "end"]
+        fs = sorted(rng.sample(idx, min(len(idx), rng.choice([1, 1, 2, 3]))))
+        out.append({"doc": doc, "faults": [[i, rng.choice(faults_of(doc[i - 1][0]))] for i in fs]})
+    return out
+
+
 def worker_init():
     global svg
     svg = engine.import_lib()
@@ -224,6 +260,26 @@ def run(tier, seed):
             run.record(case, r, key=r.get("xml", str(case["doc"]) + str(case["faults"])))
             byfault["sim:" + str(r.get("class"))] = byfault.get("sim:" + str(r.get("class")), 0) + 1
         run.extra["simulated_documents_replayed"] = len(sim)
+        # generated documents with 1..3 faults (harness/docgen.py), reference rendering evaluated by TLC
+        import json
+        import os
+        import random
+        rng = random.Random(seed * 5003 + 10)
+        gdocs = generated_cases(rng, 1200 if tier == "quick" else 30000)
+        gen = []
+        for part in range(0, len(gdocs), 5000):
+            df = os.path.join(work, "docs_%d.json" % part)
+            with open(df, "w") as f:
+                json.dump(gdocs[part:part + 5000], f)
+            gres = engine.run_tlc(work, "MC_C10", constants={"Full": "TRUE", "MaxTok": 0, "NFaults": 0, "MinTok": 1}, init="InitGen", next_="NextGen",
+                                  env={"DOCS_FILE": df}, timeout=7200)
+            run.add_tlc(gres, "DocFault reference rendering of %d generated faulty documents" % len(gdocs[part:part + 5000]))
+            for i, st in enumerate(engine.read_dump(gres["dump"])):
+                gen.append({"doc": st["doc"], "faults": st["faults"], "out": st["out"], "cyc": st["cyc"], "n": part + i, "seed": seed})
+        for case, r in engine.replay("harness.c10", gen, chunk=100):
+            run.record(case, r, key=r.get("xml", str(case["doc"]) + str(case["faults"])))
+            byfault["gen:" + str(r.get("class"))] = byfault.get("gen:" + str(r.get("class")), 0) + 1
+        run.extra["generated_documents_replayed"] = len(gen)
         run.extra["cases_by_fault_and_tag"] = byfault
     finally:
         engine.cleanup(work)
